@@ -211,6 +211,42 @@ func runWorld(run *rep.Run, rng *rand.Rand, eng, bal string, id int) {
 		} else {
 			run.Count("gauge_states_matched", 1)
 		}
+		// while the requests are still held: attempts that fail at connection level on the same
+		// endpoints must not disturb the gauges of the attempts still in flight
+		if stable {
+			hc := world.NewClient(false, 10*time.Second)
+			for k := 0; k < 3; k++ {
+				for _, model := range []string{"mall", "mtra"} {
+					req, _ := http.NewRequest("POST", w.Base+"/olla/proxy/v1/chat/completions?o=reset", bytes.NewReader([]byte(fmt.Sprintf(`{"model":%q}`, model))))
+					req.Header.Set("Content-Type", "application/json")
+					if resp, err := hc.Do(req); err == nil {
+						io.Copy(io.Discard, resp.Body)
+						resp.Body.Close()
+					}
+				}
+				w.Health().VerifShift(40 * time.Second)
+				w.ForceHealth()
+				w.CloseEngineBreakers(names...)
+			}
+			ok := false
+			var cs2 map[string]int64
+			for p := 0; p < 100 && !ok; p++ {
+				cs2 = col.GetConnectionStats()
+				ok = true
+				for i, n := range names {
+					if cs2[urlOf[n]] != held[i].Load() {
+						ok = false
+					}
+				}
+				if !ok {
+					time.Sleep(5 * time.Millisecond)
+				}
+			}
+			run.Count("gauge_checks_after_failed_attempts", 1)
+			if !ok {
+				run.Violation("C19/gauge/differs-from-in-flight-after-failed-attempts/"+eng, fmt.Sprintf("requests held inside the endpoints: %v; after other attempts failed at connection level the reported active connections are %d %d %d", []int64{held[0].Load(), held[1].Load(), held[2].Load()}, cs2[urlOf["n0"]], cs2[urlOf["n1"]], cs2[urlOf["t2"]]), map[string]any{"world": key})
+			}
+		}
 		holdMu.Lock()
 		close(holdCh)
 		holdMu.Unlock()
